@@ -43,6 +43,13 @@ def representations(loc, us, off, utc, epoch_s):
         yield "numpy_int64", np.int64(epoch_s), 0
     if us in (0, 125000, 500000):      # exactly representable fractions
         yield "epoch_float", float(epoch_s) + us / 1e6, 0
+        yield "numpy_float64", np.float64(epoch_s) + us / 1e6, 0
+        yield "ndarray_float", np.array([float(epoch_s) + us / 1e6]), 0
+        yield "dataarray_float", xarray.DataArray(np.array([float(epoch_s) + us / 1e6]), dims=["t"], coords={"t": [7]}), 0
+        yield "series_float", pd.Series([float(epoch_s) + us / 1e6], index=["x"]), 0
+        yield "list_float", [float(epoch_s) + us / 1e6], 0
+    if us == 0:
+        yield "ndarray_int", np.array([int(epoch_s)], dtype="int64"), 0
     naive = datetime(uy, um, ud, uh, umi, usec, us)
     for unit in ("s", "ms", "us", "ns"):
         yield "datetime64[%s]" % unit, np.datetime64(naive, unit), 1
